@@ -35,11 +35,11 @@ BOUNDS = {
     'quick': {'base_graphs': 'all connected graphs <= 4 nodes', 'order_variants': 'all single; each edge in turn 2 / 0 (first edge also 3), every second one for 4 nodes',
               'designs': ['unique', 'homo', 'free'], 'last_level': ['all-atom', 'coarse'], 'legacy': [True, False],
               'virtual_node': 'first / middle / last on graphs <= 3 nodes', 'multiplied_units': '|2 |3, flat multiplied branch',
-              'typed_in': 41, 'layered': 'groupings of graphs <= 4 nodes into 1..2 intermediate levels, 7 typed-in multi-level strings',
+              'typed_in': 40, 'layered': 'groupings of graphs <= 4 nodes into 1..2 intermediate levels, 7 typed-in multi-level strings',
               'from_graph_rekeyed': 'graphs <= 3 nodes x 4 key schemes', 'random': '60 trees 5..8 nodes + 60 layered', 'repeats_per_cell': 2},
     'thorough': {'base_graphs': 'all connected graphs <= 5 nodes', 'order_variants': 'as quick + 2 seeded assignments', 'repeats_per_cell': 3,
                  'designs': ['unique', 'homo', 'free'], 'last_level': ['all-atom', 'coarse'], 'legacy': [True, False],
-                 'virtual_node': 'first / middle / last on graphs <= 4 nodes', 'multiplied_units': '|2 |3 |5', 'typed_in': 41,
+                 'virtual_node': 'first / middle / last on graphs <= 4 nodes', 'multiplied_units': '|2 |3 |5', 'typed_in': 40,
                  'layered': 'groupings of graphs <= 5 nodes into 1..3 intermediate levels', 'from_graph_rekeyed': 'graphs <= 4 nodes x 4 key schemes',
                  'random': '4000 trees + 3000 layered'},
 }
